@@ -138,6 +138,16 @@ impl LogicalLineFileFormatter for OptimisingLineFormatter {
                 olf.reconstruct_solution(&solution, line.1);
             }
         }
+
+        // The reflow may have introduced new line breaks; as above, the spaces provided by
+        // `TokenSpacing` must not remain at the start of those lines.
+        for token_index in 0..olf.formatted_tokens.len() {
+            if let Some(data) = olf.formatted_tokens.get_formatting_data_mut(token_index) {
+                if data.newlines_before > 0 {
+                    data.spaces_before = 0;
+                }
+            }
+        }
     }
 }
 impl OptimisingLineFormatter {
